@@ -5,7 +5,7 @@ import Log4rsModel.Routing.Config
 Executable model of the routing tree of `src/lib.rs` (C01, C02), function by function:
 `ConfiguredLogger::{add, find, max_log_level, enabled, log}`, `SharedLogger::new_with_err_handler`
 (name → index map, stable sort by byte length, insertion), `Log for Logger`, and the history machine
-`init_* ; (Handle::set_config | failing init_*)*` with the `log` facade's global maximum level.
+`init_* ; (Handle::set_config | failing init_* | file reload)*` with the `log` facade's global maximum level.
 `FnvHashMap<String, ConfiguredLogger>` is an association list: `get` = `lookup`, `get_mut` + assignment =
 `setChild`, `insert` of an absent key = append.
 -/
@@ -230,6 +230,12 @@ inductive Step where
   | setConfig (cfg : Config)
   /-- a further `init_*` call: `set_boxed_logger` refuses (a logger is installed), the call returns `Err` -/
   | reinit (path : InitPath) (cfg : Config)
+  /-- the file reloader (`ConfigReloader::run_once`, the refresh thread of `init_file`) found the file
+  changed to a document denoting `cfg` and applied it: `self.handle.set_config(config)` — the same
+  `Handle::set_config` as an application call, through the reloader's clone of the handle. Which clone of
+  the handle a `set_config` goes through, and on which thread, is not part of the state: all clones share
+  the one `Arc<ArcSwap<SharedLogger>>` and the one process-wide `log::max_level()`. -/
+  | reload (cfg : Config)
 
 /-- one process: initialised once, then any sequence of reconfigurations through the handle and of
 further (failing) initialisation attempts -/
@@ -265,6 +271,7 @@ def reinitReturnsOk : Bool := false
 def step (fixed : Bool) (s : State) : Step → Option State
   | .setConfig c => install c
   | .reinit p c => some (reinit fixed s p c)
+  | .reload c => install c
 
 def steps (fixed : Bool) : State → List Step → Option State
   | s, [] => some s
@@ -281,11 +288,15 @@ def runWith (fixed : Bool) (h : History) : Option State :=
 /-- the code as it is -/
 def run (h : History) : Option State := runWith true h
 
-/-- the configurations that were installed, in order: the first one and every `set_config` -/
+/-- the configuration a step installs, if any -/
+def Step.installs : Step → Option Config
+  | .setConfig c => some c
+  | .reinit _ _ => none
+  | .reload c => some c
+
+/-- the configurations that were installed, in order: the first one, every `set_config` and every reload -/
 def installedCfgs (h : History) : List Config :=
-  h.first :: h.steps.filterMap fun
-    | .setConfig c => some c
-    | .reinit _ _ => none
+  h.first :: h.steps.filterMap Step.installs
 
 /-- the `log!` macros: `if lvl <= log::max_level() { logger.log(record) }` (facade contract) -/
 def macroLog (s : State) (target : Name) (lvl : Nat) : Option (List Name) :=
